@@ -323,6 +323,7 @@ def _named(ctx, rep, eng):
                         for g in cfg:
                             group_hour.setdefault(g, set()).add((h.lo, mi.lo if isinstance(mi, IntV) and mi.is_const() else None))
         bad = None
+        und_nh = None
         n = 0
         for i, (en, de) in enumerate(zip(NUM_EN, NUM_DE)):
             num = i + 1
@@ -342,11 +343,16 @@ def _named(ctx, rep, eng):
                 vals = set()
                 for g in hits:
                     vals |= group_hour.get(g, set())
-                if vals != {(num, 0)}:
+                if not vals and hits:
+                    und_nh = "no constant hour found on the paths where group {} took part".format(hits[0])
+                elif vals != {(num, 0)}:
                     bad = bad or "'{}' is accepted by groups {} which give {} (expected hour {} minute 0)".format(
                         w, hits, sorted(vals), num)
-        rep.add("named-hour", rule_construct(rule, "number words"), rule.where, bad is None,
-                bad or "{} words".format(n))
+        if bad is None and und_nh:
+            rep.undecided("named-hour", rule_construct(rule, "number words"), rule.where, und_nh)
+        else:
+            rep.add("named-hour", rule_construct(rule, "number words"), rule.where, bad is None,
+                    bad or "{} words".format(n))
 
 
 def _todpod(ctx, rep, eng):
